@@ -18,7 +18,7 @@ pub struct SchemaGen {
     open: Vec<String>,
 }
 
-const NAMESPACES: &[&str] = &["", "ns", "a.b", "org.x_y.Z9"];
+const NAMESPACES: &[&str] = &["", "ns", "a.b", "org.x_y.Z9", "_u._v9._"];
 
 fn join(ns: &str, n: &str) -> String {
     if ns.is_empty() { n.to_string() } else { format!("{ns}.{n}") }
